@@ -97,6 +97,76 @@ theorem unmatched_stream_closed (s : State) :
   · simp [step]
   · simp [acceptRes, step]
 
+/-! ### Handlers that refuse the value (`AddValue` = false: resolver context cancelled, directive released)
+
+`resolveMatch` visits the matching directives in map-iteration order; `takes` lists, in visiting
+order, whether each handler took the value. -/
+
+/-- The outcome of `resolveMatch` depends only on HOW MANY handlers took the value — not on the
+position of the refusing handlers in the visiting order (in particular not on what the handler
+visited last answered). -/
+theorem refusal_position_irrelevant (s : State) (takes takes' : List Bool)
+    (h : takes.count true = takes'.count true) :
+    step s (.resolveH takes) = step s (.resolveH takes') := by
+  rw [step_resolveH, step_resolveH, h]
+
+/-- Handlers that all take the value: `resolveH` is `resolve`. -/
+theorem resolveH_all_take (s : State) (k : Nat) :
+    step s (.resolveH (List.replicate k true)) = step s (.resolve k) := by
+  rw [step_resolveH]; simp
+
+/-- If SOME handler took the value — in whatever position, whatever the others answered —
+`resolveMatch` does not close the stream, and the first `AcceptMountedStream` on the value returns
+that stream. -/
+theorem taken_not_closed (s : State) (takes : List Bool) (h : true ∈ takes) :
+    (step s (.resolveH takes)).1.closed = s.closed ∧
+    acceptRes (step s (.resolveH takes)).1 s.wrappers.length = .stream (some s.nextStream) := by
+  have hk : takes.count true ≠ 0 := by
+    intro e; exact (List.count_eq_zero.mp e) h
+  constructor
+  · simp [step, hk]
+  · simp [acceptRes, step, hk]
+
+/-- If EVERY handler refused the value (or there was none), `resolveMatch` closes the stream —
+exactly once: it is a fresh stream, so it was not closed before — and the value answers every
+`AcceptMountedStream` with the error. -/
+theorem all_refused_closed_once (pre : List Op) (takes : List Bool) (h : true ∉ takes) :
+    (run (pre ++ [.resolveH takes])).closed.count (run pre).nextStream = 1 ∧
+    acceptRes (run (pre ++ [.resolveH takes])) (run pre).wrappers.length = .err := by
+  have hk : takes.count true = 0 := List.count_eq_zero.mpr h
+  have hfresh : (run pre).nextStream ∉ (run pre).closed := by
+    intro hc
+    obtain ⟨i, w, hw, hm, _⟩ := (inv_run pre).cls _ hc
+    exact Nat.lt_irrefl _ ((inv_run pre).fresh i w _ hw hm)
+  have e : run (pre ++ [.resolveH takes]) = (step (run pre) (.resolveH takes)).1 := by
+    rw [run_append]; rfl
+  rw [e]
+  constructor
+  · simp [step, hk, List.count_eq_zero.mpr hfresh]
+  · simp [acceptRes, step, hk]
+
+/-- A stream some handler took is not closed by the controller at all: the close log does not
+mention it after `resolveMatch`. -/
+theorem taken_closed_count_zero (pre : List Op) (takes : List Bool) (h : true ∈ takes) :
+    (run (pre ++ [.resolveH takes])).closed.count (run pre).nextStream = 0 := by
+  have hfresh : (run pre).nextStream ∉ (run pre).closed := by
+    intro hc
+    obtain ⟨i, w, hw, hm, _⟩ := (inv_run pre).cls _ hc
+    exact Nat.lt_irrefl _ ((inv_run pre).fresh i w _ hw hm)
+  have e : run (pre ++ [.resolveH takes]) = (step (run pre) (.resolveH takes)).1 := by
+    rw [run_append]; rfl
+  rw [e, (taken_not_closed (run pre) takes h).1]
+  exact List.count_eq_zero.mpr hfresh
+
+/-- Non-vacuity: first handler takes and its consumer accepts, last handler refuses — the stream
+stays open and owned; all three refuse — closed, accept answers the error. -/
+example : (runRes {} [.resolveH [true, false], .accept 0, .accept 0]).2 =
+      [.created 1 1, .stream (some 0), .already] ∧
+    (runRes {} [.resolveH [true, false], .accept 0]).1.closed = [] ∧
+    (runRes {} [.resolveH [false, false, false], .accept 0]).2 = [.created 1 0, .err] ∧
+    (runRes {} [.resolveH [false, false, false], .accept 0]).1.closed = [0] := by
+  decide
+
 /-! ### The code before the fixes violates all three clauses -/
 
 /-- F16: two directives match one stream; each accepts "its" value; both own the stream. -/
